@@ -19,6 +19,7 @@ import (
 	"time"
 
 	"github.com/libp2p/go-libp2p/core/network"
+	"github.com/libp2p/go-libp2p/core/peer"
 	"github.com/libp2p/go-libp2p/core/peerstore"
 	"github.com/libp2p/go-libp2p/x/verif/vrep"
 	vs "github.com/libp2p/go-libp2p/x/verif/vsched"
@@ -51,6 +52,60 @@ type c05Scn struct {
 	AttemptOnTimeout bool
 	// CloseConnOf: k+1 = once caller k has returned with a connection, the application closes that connection
 	CloseConnOf int
+	// Resolve: names among Addrs (/dnsaddr/..., /dns4/...) and what the swarm's multiaddr resolver answers for them
+	// (possibly with a /p2p/<peer> suffix, as dnsaddr records have); the CANDIDATE addresses of the oracle are the
+	// resolved ones, suffix stripped, each once
+	Resolve map[string][]string
+}
+
+// cands: the addresses the transports may be asked for - Addrs with names replaced by what they resolve to, without a
+// /p2p suffix, without duplicates.
+func (sc c05Scn) cands() []string {
+	var out []string
+	add := func(a string) {
+		if i := strings.Index(a, "/p2p/"); i >= 0 && !strings.Contains(a, "p2p-circuit") {
+			a = a[:i]
+		}
+		for _, b := range out {
+			if a == b {
+				return
+			}
+		}
+		out = append(out, a)
+	}
+	for _, known := range sc.Addrs {
+		if r, ok := sc.Resolve[known]; ok {
+			for _, b := range r {
+				add(b)
+			}
+			continue
+		}
+		add(known)
+	}
+	return out
+}
+
+// c05Resolver answers from the scenario's table (no goroutines, no time).
+type c05Resolver struct{ m map[string][]string }
+
+func (r c05Resolver) lookup(a ma.Multiaddr, limit int) ([]ma.Multiaddr, error) {
+	l, ok := r.m[a.String()]
+	if !ok {
+		return nil, fmt.Errorf("c05: no such name: %s", a)
+	}
+	var out []ma.Multiaddr
+	for _, x := range l {
+		if len(out) < limit {
+			out = append(out, ma.StringCast(x))
+		}
+	}
+	return out, nil
+}
+func (r c05Resolver) ResolveDNSAddr(_ context.Context, _ peer.ID, a ma.Multiaddr, _, limit int) ([]ma.Multiaddr, error) {
+	return r.lookup(a, limit)
+}
+func (r c05Resolver) ResolveDNSComponent(_ context.Context, a ma.Multiaddr, limit int) ([]ma.Multiaddr, error) {
+	return r.lookup(a, limit)
 }
 
 const (
@@ -62,6 +117,8 @@ const (
 	c05NoTpt  = "/ip4/1.2.3.4/sctp/4006"
 	c05TCP6a  = "/ip6/2a00:1450:4001:81b::200e/tcp/4007"
 	c05TCP6b  = "/ip6/2a00:1450:4001:81b::200f/tcp/4008"
+	c05DNSAddr = "/dnsaddr/peer.example"
+	c05DNS4    = "/dns4/host.example/tcp/4001"
 	c05Relay0 = "/ip4/5.6.7.8/tcp/4007/p2p/%s/p2p-circuit"
 )
 
@@ -96,7 +153,11 @@ func c05Body(sc c05Scn) func(x *vs.Exec) {
 		if pp == 0 {
 			pp = 8
 		}
-		env := fxNewEnv(fd, pp)
+		var opts []Option
+		if sc.Resolve != nil {
+			opts = append(opts, WithMultiaddrResolver(c05Resolver{sc.Resolve}))
+		}
+		env := fxNewEnv(fd, pp, opts...)
 		P := fxID("P")
 		for _, a := range sc.Addrs {
 			env.PS.AddAddr(P.ID, ma.StringCast(a), peerstore.PermanentAddrTTL)
@@ -296,7 +357,7 @@ func c05Oracle(x *vs.Exec, sc c05Scn, env *fxEnv, calls []*c05CallRun, gens map[
 		// an error. Unless the caller itself gave up (its own context was cancelled), every address that is neither
 		// filtered out nor in back-off must have been attempted by now - also when the dial-peer timeout ended
 		if !(c.spec.Cancel && c.cancelAt != 0 && c.cancelAt < c.end) {
-			for _, a := range sc.Addrs {
+			for _, a := range sc.cands() {
 				if a == c05NoTpt || (c.spec.ForceDirect && a == relay) {
 					continue
 				}
@@ -328,7 +389,7 @@ func c05Oracle(x *vs.Exec, sc c05Scn, env *fxEnv, calls []*c05CallRun, gens map[
 				return
 			}
 			if sc.AttemptOnTimeout && c.ctxErrAtReturn == nil && c.err != nil {
-				for _, a := range sc.Addrs {
+				for _, a := range sc.cands() {
 					attempted := false
 					for _, d := range dials {
 						if d.Addr == a && d.Start > c.start && d.Start < c.end {
@@ -348,7 +409,7 @@ func c05Oracle(x *vs.Exec, sc c05Scn, env *fxEnv, calls []*c05CallRun, gens map[
 			return
 		}
 		// ... or every candidate address has failed or been refused
-		cands := append([]string{}, sc.Addrs...)
+		cands := sc.cands()
 		for _, a := range cands {
 			if a == c05NoTpt {
 				continue // no transport: refused
@@ -486,10 +547,15 @@ func c05Scenarios(thorough bool) []c05Scn {
 		{Name: "fd=1: ok and hang, caller 1 cancelled", Addrs: []string{c05TCP1, c05TCP2}, Script: map[string][]string{c05TCP1: {fxOK}}, Callers: []c05Caller{{}, {Cancel: true}}, FD: 1, PerPeer: 2, Ticks: []time.Duration{251 * time.Millisecond}},
 		{Name: "force-direct caller introduces the address and is cancelled, a plain caller has joined", Addrs: []string{c05TCP1}, Script: map[string][]string{c05TCP1: {fxOK}}, Callers: []c05Caller{{ForceDirect: true, Cancel: true}, {}}},
 		{Name: "sim-connect caller introduces the address and is cancelled, a plain caller has joined", Addrs: []string{c05TCP1, c05QUIC}, Script: map[string][]string{c05TCP1: {fxOK}, c05QUIC: {fxFail}}, Callers: []c05Caller{{SimConnect: true, Cancel: true}, {}}},
+		{Name: "a dnsaddr name that resolves to an address also known plainly (record with /p2p suffix), the address fails", Addrs: []string{c05DNSAddr, c05TCP1},
+			Resolve: map[string][]string{c05DNSAddr: {c05TCP1 + "/p2p/" + fxID("P").ID.String()}}, Script: map[string][]string{c05TCP1: {fxFail}}, Callers: one},
 		{Name: "dial authenticates as the wrong peer", Addrs: []string{c05TCP1}, Script: map[string][]string{c05TCP1: {fxWrongPeer}}, Callers: one},
 	}
 	if thorough {
 		scs = append(scs,
+			c05Scn{Name: "a dns4 name and a dnsaddr name that resolve to the same two addresses, one also known plainly; first fails, second ok, 2 callers", Addrs: []string{c05DNS4, c05DNSAddr, c05TCP2},
+				Resolve: map[string][]string{c05DNS4: {c05TCP1}, c05DNSAddr: {c05TCP1 + "/p2p/" + fxID("P").ID.String(), c05TCP2 + "/p2p/" + fxID("P").ID.String()}},
+				Script: map[string][]string{c05TCP1: {fxFail}, c05TCP2: {fxOK}}, Callers: two},
 			c05Scn{Name: "no addresses, 2 callers", Addrs: nil, Script: map[string][]string{}, Callers: two},
 			c05Scn{Name: "only undialable address", Addrs: []string{c05NoTpt}, Script: map[string][]string{}, Callers: two},
 			c05Scn{Name: "address in back-off, plain and force-direct caller", Addrs: []string{c05TCP1}, Backoff: []string{c05TCP1}, Script: map[string][]string{c05TCP1: {fxOK}}, Callers: []c05Caller{{}, {ForceDirect: true}}},
